@@ -29,6 +29,11 @@ type Sched struct {
 	yield   chan *thread
 	cur     *thread
 	Points  []PointRec
+	prefix  []int
+	// a decision taken inside Point, to be carried out by the scheduler loop
+	decided  bool
+	next     *thread
+	deadlock bool
 	// Watchdog is how long the running thread may take to reach its next point.
 	Watchdog time.Duration
 }
@@ -44,9 +49,49 @@ func (s *Sched) Current() int { return s.cur.id }
 func (s *Sched) Point(enabled func() bool) {
 	t := s.cur
 	t.enabled = enabled
+	// The decision is taken right here by the running thread (it is the only managed thread that runs): when it is
+	// "the same thread goes on" nothing is handed over.
+	next, deadlock := s.decide(t.id)
+	if next == t && !deadlock {
+		t.enabled = nil
+		return
+	}
+	s.decided, s.next, s.deadlock = true, next, deadlock
 	s.yield <- t
 	<-t.resume
 	t.enabled = nil
+}
+
+// decide records one scheduling decision (prefix choice or 0) and returns the chosen thread.
+func (s *Sched) decide(last int) (next *thread, deadlock bool) {
+	var en []int
+	for _, t := range s.threads {
+		if t.done {
+			continue
+		}
+		if t.enabled != nil && !t.enabled() {
+			continue
+		}
+		en = append(en, t.id)
+	}
+	if len(en) == 0 {
+		return nil, true
+	}
+	ord := en
+	for i, id := range en {
+		if id == last && i > 0 {
+			ord = append([]int{id}, append(append([]int{}, en[:i]...), en[i+1:]...)...)
+		}
+	}
+	k := 0
+	if len(s.Points) < len(s.prefix) {
+		k = s.prefix[len(s.Points)]
+		if k >= len(ord) {
+			panic(fmt.Sprintf("replay divergence at point %d: choice %d of %d", len(s.Points), k, len(ord)))
+		}
+	}
+	s.Points = append(s.Points, PointRec{Enabled: ord, Running: last, Chosen: k})
+	return s.threads[ord[k]], false
 }
 
 // Outcome of one execution.
@@ -74,48 +119,41 @@ func (s *Sched) Run(prefix []int, bodies []func()) Outcome {
 			s.yield <- t
 		}(t, b)
 	}
+	s.prefix = prefix
+	s.decided = false
 	last := -1
 	for {
-		var en []int
 		alive := 0
 		for _, t := range s.threads {
-			if t.done {
-				continue
+			if !t.done {
+				alive++
 			}
-			alive++
-			if t.enabled != nil && !t.enabled() {
-				continue
-			}
-			en = append(en, t.id)
 		}
 		if alive == 0 {
 			s.cur = nil
 			return Outcome{Points: s.Points}
 		}
-		if len(en) == 0 {
-			s.cur = nil
-			return Outcome{Points: s.Points, Deadlock: true}
-		}
-		ord := en
-		for i, id := range en {
-			if id == last && i > 0 {
-				ord = append([]int{id}, append(append([]int{}, en[:i]...), en[i+1:]...)...)
+		var t *thread
+		if s.decided {
+			s.decided = false
+			if s.deadlock {
+				s.cur = nil
+				return Outcome{Points: s.Points, Deadlock: true}
+			}
+			t = s.next
+		} else {
+			var dl bool
+			if t, dl = s.decide(last); dl {
+				s.cur = nil
+				return Outcome{Points: s.Points, Deadlock: true}
 			}
 		}
-		k := 0
-		if len(s.Points) < len(prefix) {
-			k = prefix[len(s.Points)]
-			if k >= len(ord) {
-				panic(fmt.Sprintf("replay divergence at point %d: choice %d of %d", len(s.Points), k, len(ord)))
-			}
-		}
-		s.Points = append(s.Points, PointRec{Enabled: ord, Running: last, Chosen: k})
-		t := s.threads[ord[k]]
 		last = t.id
 		s.cur = t
 		t.resume <- struct{}{}
 		select {
-		case <-s.yield:
+		case y := <-s.yield:
+			last = y.id
 		case <-time.After(s.Watchdog):
 			s.cur = nil
 			return Outcome{Points: s.Points, Stuck: true}
@@ -155,9 +193,16 @@ func Explore(bound int, run func(prefix []int) []PointRec, stop func() bool) (ex
 		pts := run(prefix)
 		executions++
 		ch := Choices(pts)
+		before := Preemptions(pts, len(prefix)) // preemptions among the points before i, kept incrementally
 		for i := len(prefix); i < len(pts); i++ {
 			p := pts[i]
-			cost := Preemptions(pts, i)
+			if i > len(prefix) {
+				q := pts[i-1]
+				if q.Running >= 0 && q.Enabled[0] == q.Running && q.Chosen != 0 {
+					before++
+				}
+			}
+			cost := before
 			if p.Running >= 0 && p.Enabled[0] == p.Running {
 				cost++ // switching away from a runnable thread is a preemption
 			}
